@@ -27,3 +27,4 @@ open(os.path.join(root, "seeded", "README.md"), "w").write(
     "None of these is ever committed to /repo. Reproduce: `tools/mutcheck.py <ID> seeded/<ID>/patch.diff`.\n\n"
     "| property | crate | needs, to manifest | caught | how the check reacted / what was strengthened |\n|---|---|---|---|---|\n" + "\n".join(rows) + "\n")
 print("kept", pid)
+import subprocess; subprocess.call([os.path.join(root,"tools","gen_asbuilt_md.py")])
